@@ -199,6 +199,9 @@ def _lint_file_worker(args: tuple[Path, Path, dict]) -> list[dict]:
         violations = orchestrator.lint_file(file_path)
         # Convert to dicts for pickling
         return [v.to_dict() for v in violations]
+    except ValueError:
+        # Configuration validation errors must reach the caller, as in the sequential run
+        raise
     except Exception:
         _verif_failure_tap("worker", None, file_path)
         logger.exception("Worker error processing file: %s", file_path)
@@ -450,6 +453,9 @@ class Orchestrator:  # thailint: ignore[srp]
         """Extract violations from a completed future, handling errors."""
         try:
             return [Violation.from_dict(d) for d in future.result()]
+        except ValueError:
+            # Re-raised by the worker: configuration validation errors are not swallowed
+            raise
         except Exception:
             _verif_failure_tap("future", None, None)
             logger.exception("Error extracting violations from worker future")
